@@ -68,6 +68,20 @@ func (c *Ctx) withTimeout(check string, replay any, budget time.Duration, f func
 func runeLen(s string) int { return utf8.RuneCountInString(s) }
 
 func genLongInput(r *Rng) string {
+	if r.Chance(25) {
+		// over-long text that is also, or contains, a number or a date: a field value then has a typed part as well
+		n := Pick(r, []int{5, 30, 641, 700, 2100})
+		switch r.Intn(4) {
+		case 0:
+			return strings.Repeat("7", n)
+		case 1:
+			return "born on 2001-02-03 in " + strings.Repeat("Kigali ", n/7+1)
+		case 2:
+			return strings.Repeat("x", n) + " 12.5"
+		default:
+			return "15-03-2020 10:30 " + strings.Repeat("é", n)
+		}
+	}
 	unit := Pick(r, []string{"a", "é", "中", "\U0001F600", "ab ", "x́", "A B"})
 	n := Pick(r, []int{0, 1, 2, 3, 4, 5, 9, 10, 11, 63, 64, 65, 66, 639, 640, 641, 700, 2100, 10001})
 	s := strings.Repeat(unit, n/runeLen(unit)+1)
